@@ -4,13 +4,13 @@ package query
 
 // C22 — query results do not depend on optimization or strategy.
 //
-// TestVerifC22Model: wide typed generator (zz_verif_qlib_test.go). For every (db, query as
+// TestVerifC22 part 1 (vC22Model): wide typed generator (zz_verif_qlib_test.go). For every (db, query as
 // written): the db and the structured AST go to the Lean model (Q lines, Gsu.Model.Qry.evalQ),
 // Go executes the query after Transform + Optimize under several strategies/directions.
 // Direct oracle (F lines): every executed result must equal `Simple()` of a FRESH, untransformed
 // instance of the same query (multiset of rows and set of result columns).
 //
-// TestVerifC22AsWritten: the package's own generators (newFT / fuzzRandom) with the same direct
+// part 2 (vC22AsWritten, 4x as many cases): the package's own generators (newFT / fuzzRandom) with the same direct
 // oracle (no model replay: those queries use rules and 1000-value domains).
 
 import (
@@ -152,6 +152,11 @@ func (g *vdb) checkC22(tr *lib.Trace, q *vnode, seed uint64) {
 				gotS = got2.show(&g.ids)
 			}
 			sig := "aswritten-" + kind2 + ":" + vshape(m)
+			if kind2 == "rows" && len(m.kids) == 2 && (vhasWhole(m.kids[0]) || vhasWhole(m.kids[1])) {
+				// a join/leftjoin/… whose operands are right on their own but which reads a
+				// whole-row summarize through Select/Lookup
+				sig = "aswritten-rows:select-into-wholerow-summarize"
+			}
 			if kind2 == "error" && got2 != nil {
 				// one signature per kind of failure, whatever operator it shows under
 				sig = "aswritten-error:" + verrSig(got2.err)
@@ -162,6 +167,18 @@ func (g *vdb) checkC22(tr *lib.Trace, q *vnode, seed uint64) {
 					" | executed: "+vtrunc(gotS, 300)+" | columns "+strings.Join(g.ids.names, ","))
 		}
 	}
+}
+
+func vhasWhole(n *vnode) bool {
+	if n.op == "summarize" && n.whole {
+		return true
+	}
+	for _, k := range n.kids {
+		if vhasWhole(k) {
+			return true
+		}
+	}
+	return false
 }
 
 func verrSig(err string) string {
